@@ -18,4 +18,340 @@ theorem gcdLoop_eq (a b : Nat) : gcdLoop a b = Nat.gcd a b := by
       rw [Nat.gcd_comm a b, Nat.gcd_rec b a]
       exact Nat.gcd_comm _ _
 
+/-! ## conversions -/
+
+theorem two_pow_split (w : Nat) (hw : 1 ≤ w) : (2:Int)^w = 2 * 2^(w-1) := by
+  obtain ⟨k, rfl⟩ : ∃ k, w = k+1 := ⟨w-1, by omega⟩
+  rw [Int.pow_succ]; simp; omega
+
+theorem emod_shift (x Q k : Int) (h0 : 0 ≤ x - k*Q) (h1 : x - k*Q < Q) : x % Q = x - k*Q := by
+  have : x % Q = (x - k*Q) % Q := by
+    rw [Int.sub_mul_emod_self_right]
+  rw [this]; exact Int.emod_eq_of_lt h0 h1
+
+theorem inR_iff (t : ITy) (x : Int) : t.inR x = true ↔ t.min ≤ x ∧ x ≤ t.max := by
+  simp [ITy.inR]
+
+theorem convU (w : Nat) (x : Int) : ITy.conv ⟨w, false⟩ x = x % 2^w := by
+  simp [ITy.conv]
+
+theorem convS (w : Nat) (x : Int) :
+    ITy.conv ⟨w, true⟩ x = if x % 2^w ≥ 2^(w-1) then x % 2^w - 2^w else x % 2^w := by
+  simp [ITy.conv]
+
+theorem conv_of_inR (t : ITy) (hw : 1 ≤ t.w) (x : Int) (h : t.inR x = true) : t.conv x = x := by
+  obtain ⟨w, sg⟩ := t
+  have h2 := two_pow_split w hw
+  have hp : (0:Int) < 2^(w-1) := Int.pow_pos (by decide)
+  rw [inR_iff] at h
+  cases sg
+  · rw [convU]; simp only [ITy.min, ITy.max] at h
+    simp at h
+    exact Int.emod_eq_of_lt h.1 (by omega)
+  · rw [convS]; simp only [ITy.min, ITy.max] at h
+    simp at h
+    generalize (2:Int)^(w-1) = P at *
+    generalize (2:Int)^w = Q at *
+    by_cases hx : 0 ≤ x
+    · rw [emod_shift x Q 0 (by omega) (by omega)]; simp; omega
+    · rw [emod_shift x Q (-1) (by omega) (by omega)]; simp
+      omega
+
+/-- `static_cast` lands in the range of the type and differs from the argument by a multiple of `2^w` -/
+theorem conv_spec (t : ITy) (hw : 1 ≤ t.w) (x : Int) :
+    (t.min ≤ t.conv x ∧ t.conv x ≤ t.max) ∧ ∃ k : Int, t.conv x = x - k * 2^t.w := by
+  obtain ⟨w, sg⟩ := t
+  have h2 := two_pow_split w hw
+  have hp : (0:Int) < 2^(w-1) := Int.pow_pos (by decide)
+  have hq : (0:Int) < 2^w := Int.pow_pos (by decide)
+  have hm0 := Int.emod_nonneg x (Int.ne_of_gt hq)
+  have hm1 := Int.emod_lt_of_pos x hq
+  have hd : x % 2^w = x - (x / 2^w) * 2^w := by
+    have := Int.emod_def x (2^w); rw [this, Int.mul_comm]
+  cases sg
+  · rw [convU]; simp only [ITy.min, ITy.max]; simp
+    exact ⟨⟨hm0, by omega⟩, x / 2^w, hd⟩
+  · rw [convS]; simp only [ITy.min, ITy.max]; simp
+    generalize (x / 2^w) = d at *
+    generalize x % (2:Int)^w = r at *
+    generalize (2:Int)^(w-1) = P at *
+    generalize (2:Int)^w = Q at *
+    by_cases hr : P ≤ r
+    · simp only [hr, if_true]
+      refine ⟨by omega, d + 1, ?_⟩
+      rw [Int.add_mul]; omega
+    · simp only [hr, if_false]
+      exact ⟨by omega, d, by omega⟩
+
+/-! ## saturating addition -/
+
+theorem arith_ok (p : ITy) (hw : 1 ≤ p.w) (x : Int) (h : p.inR x = true) : arith p x = .ok x := by
+  unfold arith
+  cases hs : p.sg
+  · simp [conv_of_inR p hw x h]
+  · simp [h]
+
+/-- add_sat (builtin path) = clamp of the exact sum -/
+theorem addSat_eq (t : ITy) (hw : 1 ≤ t.w) (x y : Int) (hx : t.inR x = true) (hy : t.inR y = true) :
+    addSat t x y = .ok (Spec.clampTo t.min t.max (x + y)) := by
+  obtain ⟨w, sg⟩ := t
+  have h2 := two_pow_split w hw
+  have hp : (0:Int) < 2^(w-1) := Int.pow_pos (by decide)
+  rw [inR_iff] at hx hy
+  unfold addSat Spec.clampTo
+  cases sg <;> simp only [ITy.min, ITy.max, inR_iff] at * <;> simp at * <;>
+    generalize (2:Int)^(w-1) = P at * <;> generalize (2:Int)^w = Q at *
+  · split <;> split <;> (try split) <;> first | rfl | (congr 1; omega) | omega
+  · split <;> split <;> (try split) <;> first | rfl | (congr 1; omega) | omega
+
+theorem promote_w (t : ITy) (hw : 1 ≤ t.w) : 1 ≤ t.promote.w := by
+  unfold ITy.promote; split
+  · simp
+  · exact hw
+
+theorem min_max_zero (t : ITy) : t.min ≤ 0 ∧ 0 ≤ t.max := by
+  have hp : (0:Int) < 2^(t.w-1) := Int.pow_pos (by decide)
+  have hq : (0:Int) < 2^t.w := Int.pow_pos (by decide)
+  unfold ITy.min ITy.max; cases t.sg <;> simp <;> omega
+
+theorem pow_mono (a b : Nat) (h : a ≤ b) : (2:Int)^a ≤ 2^b := by
+  have : (2:Nat)^a ≤ 2^b := Nat.pow_le_pow_right (by decide) h
+  exact_mod_cast this
+
+/-- every value of `t` is a value of `t.promote` -/
+theorem promote_inR (t : ITy) (hw : 1 ≤ t.w) (x : Int) (h : t.inR x = true) : t.promote.inR x = true := by
+  obtain ⟨w, sg⟩ := t
+  unfold ITy.promote
+  split
+  · rename_i hlt
+    simp at hlt
+    rw [inR_iff] at h ⊢
+    have h1 := pow_mono w 31 (by omega)
+    have h2 := pow_mono (w-1) 31 (by omega)
+    cases sg <;> simp only [ITy.min, ITy.max] at * <;> simp at * <;> omega
+  · exact h
+
+theorem addSatFallback_eq (t : ITy) (hw : 1 ≤ t.w) (x y : Int) (hx : t.inR x = true) (hy : t.inR y = true) :
+    addSatFallback t x y = .ok (Spec.clampTo t.min t.max (x + y)) := by
+  have hclamp : t.inR (clamp (x + y) t.min t.max) = true := by
+    rw [inR_iff] at *; unfold clamp; split <;> (try split) <;> omega
+  have hceq : clamp (x + y) t.min t.max = Spec.clampTo t.min t.max (x + y) := by
+    unfold clamp Spec.clampTo; split <;> (try split) <;> (try split) <;> omega
+  unfold addSatFallback
+  split
+  · rw [conv_of_inR t hw _ hclamp, hceq]
+  · split
+    · rw [conv_of_inR t hw _ hclamp, hceq]
+    · rw [inR_iff] at hx hy
+      have hmm := min_max_zero t
+      split
+      · rw [arith_ok t hw (t.max - x) (by rw [inR_iff]; omega)]
+        simp only [ok_bind]
+        split
+        · unfold Spec.clampTo; congr 1; split <;> (try split) <;> omega
+        · rw [arith_ok t hw (x + y) (by rw [inR_iff]; omega)]
+          unfold Spec.clampTo; congr 1; split <;> (try split) <;> omega
+      · rw [arith_ok t hw (t.min - x) (by rw [inR_iff]; omega)]
+        simp only [ok_bind]
+        split
+        · unfold Spec.clampTo; congr 1; split <;> (try split) <;> omega
+        · rw [arith_ok t hw (x + y) (by rw [inR_iff]; omega)]
+          unfold Spec.clampTo; congr 1; split <;> (try split) <;> omega
+
+/-! ## midpoint -/
+
+theorem conv_add_mul (t : ITy) (x k : Int) : t.conv (x + k * 2^t.w) = t.conv x := by
+  unfold ITy.conv; rw [Int.add_mul_emod_self_right]
+
+theorem lt_two_pow_int (w : Nat) : (w : Int) < 2^w := by
+  have : w < 2^w := Nat.lt_two_pow_self
+  exact_mod_cast this
+
+/-- the unsigned intermediate `half` of `midpoint` is `(b - a) /ₜ 2` reduced modulo `2^w` -/
+theorem midpoint_half (w : Nat) (hw : 1 ≤ w) (a b : Int) (hab : -(2:Int)^w < b - a ∧ b - a < 2^w) :
+    let diff := ((b - a) % 2^w).toNat
+    let sign : Nat := if b < a then 1 else 0
+    (((diff / 2 + (sign <<< (w - 1)) + (sign &&& diff) : Nat) : Int)) % 2^w = (Int.tdiv (b - a) 2) % 2^w := by
+  intro diff sign
+  have h2 := two_pow_split w hw
+  have hp : (0:Int) < 2^(w-1) := Int.pow_pos (by decide)
+  have hcast : (((2:Nat)^(w-1) : Nat) : Int) = (2:Int)^(w-1) := by simp
+  by_cases hlt : b < a
+  · have hs : sign = 1 := by simp [sign, hlt]
+    have hD : (b - a) % 2^w = b - a + 2^w := by
+      rw [emod_shift (b - a) (2^w) (-1) (by omega) (by omega)]; omega
+    have hd : (diff : Int) = b - a + 2^w := by
+      simp only [diff]; rw [hD]; exact Int.toNat_of_nonneg (by omega)
+    rw [hs, Nat.shiftLeft_eq, Nat.one_and_eq_mod_two, Nat.one_mul]
+    have ht : Int.tdiv (b - a) 2 = -((a - b) / 2) := by
+      have : b - a = -(a - b) := by omega
+      rw [this, Int.neg_tdiv, Int.tdiv_eq_ediv_of_nonneg (by omega)]
+    rw [ht]
+    simp only [Int.natCast_add, hcast]
+    generalize (2:Int)^(w-1) = P at *
+    generalize (2:Int)^w = Q at *
+    by_cases he : a - b = 1
+    · rw [emod_shift _ Q 1 (by omega) (by omega), emod_shift (-((a - b) / 2)) Q 0 (by omega) (by omega)]
+      omega
+    · rw [emod_shift _ Q 0 (by omega) (by omega), emod_shift (-((a - b) / 2)) Q (-1) (by omega) (by omega)]
+      omega
+  · have hs : sign = 0 := by simp [sign, hlt]
+    have hD : (b - a) % 2^w = b - a := Int.emod_eq_of_lt (by omega) (by omega)
+    have hd : (diff : Int) = b - a := by
+      simp only [diff]; rw [hD]; exact Int.toNat_of_nonneg (by omega)
+    rw [hs, Nat.zero_shiftLeft, Nat.zero_and, Nat.add_zero]; try rw [Nat.add_zero]
+    rw [Int.tdiv_eq_ediv_of_nonneg (by omega)]
+    congr 1
+    omega
+
+theorem conv_emod (t : ITy) (x : Int) : t.conv (x % 2^t.w) = t.conv x := by
+  unfold ITy.conv; rw [Int.emod_emod]
+
+theorem conv_sub_mul (t : ITy) (x k : Int) : t.conv (x - k * 2^t.w) = t.conv x := by
+  have : x - k * 2^t.w = x + (-k) * 2^t.w := by rw [Int.neg_mul]; omega
+  rw [this, conv_add_mul]
+
+theorem tdiv2_bounds (d : Int) : (0 ≤ d → 0 ≤ Int.tdiv d 2 ∧ 2 * Int.tdiv d 2 ≤ d ∧ d ≤ 2 * Int.tdiv d 2 + 1) ∧
+    (d < 0 → Int.tdiv d 2 ≤ 0 ∧ d ≤ 2 * Int.tdiv d 2 ∧ 2 * Int.tdiv d 2 - 1 ≤ d) := by
+  constructor
+  · intro h; rw [Int.tdiv_eq_ediv_of_nonneg h]; omega
+  · intro h
+    have : d = -(-d) := by omega
+    rw [this, Int.neg_tdiv, Int.tdiv_eq_ediv_of_nonneg (by omega)]; omega
+
+theorem midpoint_eq (t : ITy) (hw : 1 ≤ t.w) (hstd : t.w ≤ 16 ∨ 32 ≤ t.w) (a b : Int)
+    (ha : t.inR a = true) (hb : t.inR b = true) :
+    midpoint t a b = .ok (Spec.midpoint a b) ∧ t.inR (Spec.midpoint a b) = true := by
+  have h2 := two_pow_split t.w hw
+  have hp : (0:Int) < 2^(t.w-1) := Int.pow_pos (by decide)
+  have hwlt := lt_two_pow_int t.w
+  have hb2 := tdiv2_bounds (b - a)
+  have hmm := min_max_zero t
+  rw [inR_iff] at ha hb
+  -- the result lies between a and b
+  have hm : t.inR (Spec.midpoint a b) = true := by
+    rw [inR_iff]; unfold Spec.midpoint
+    by_cases h : 0 ≤ b - a
+    · have := hb2.1 h; omega
+    · have := hb2.2 (by omega); omega
+  refine ⟨?_, hm⟩
+  have hrange : -(2:Int)^t.w < b - a ∧ b - a < 2^t.w := by
+    obtain ⟨w, sg⟩ := t
+    cases sg <;> simp only [ITy.min, ITy.max] at ha hb <;> simp at ha hb <;> simp only [] at h2 ⊢ <;> omega
+  have hhalf := midpoint_half t.w hw a b hrange
+  unfold midpoint
+  have hshift : (t.uns.conv ((t.w : Int) - 1)).toNat = t.w - 1 := by
+    show (ITy.conv ⟨t.w, false⟩ ((t.w : Int) - 1)).toNat = t.w - 1
+    rw [convU, Int.emod_eq_of_lt (by omega) (by omega)]; omega
+  have hdiff : t.uns.conv (t.uns.conv b - t.uns.conv a) = (b - a) % 2^t.w := by
+    show ITy.conv ⟨t.w, false⟩ (ITy.conv ⟨t.w, false⟩ b - ITy.conv ⟨t.w, false⟩ a) = _
+    rw [convU, convU, convU, ← Int.sub_emod]
+  simp only [hshift, hdiff]
+  have hpw : t.w - 1 < pw t.w := by unfold pw; split <;> omega
+  simp only [hpw, decide_true, Bool.not_true, Bool.false_eq_true, if_false]
+  have hconvhalf : ∀ N : Int, N % 2^t.w = (Int.tdiv (b - a) 2) % 2^t.w →
+      t.conv (t.uns.conv N) = t.conv (Int.tdiv (b - a) 2) := by
+    intro N hN
+    show t.conv (ITy.conv ⟨t.w, false⟩ N) = _
+    rw [convU, hN, conv_emod]
+  rw [hconvhalf _ hhalf]
+  obtain ⟨hcr, k, hck⟩ := conv_spec t hw (Int.tdiv (b - a) 2)
+  have hfinal : t.conv (a + t.conv (Int.tdiv (b - a) 2)) = Spec.midpoint a b := by
+    rw [hck]
+    have : a + (Int.tdiv (b - a) 2 - k * 2^t.w) = Spec.midpoint a b - k * 2^t.w := by
+      unfold Spec.midpoint; omega
+    rw [this, conv_sub_mul, conv_of_inR t hw _ hm]
+  rcases hstd with hn | hwide
+  · -- narrower than int: the addition is exact in `int`
+    have hprom : t.promote = ⟨32, true⟩ := by unfold ITy.promote; simp; omega
+    rw [hprom]
+    have h16 := pow_mono t.w 16 hn
+    have h15 := pow_mono (t.w - 1) 16 (by omega)
+    have hin : ITy.inR ⟨32, true⟩ (a + t.conv (Int.tdiv (b - a) 2)) = true := by
+      rw [inR_iff]
+      obtain ⟨w, sg⟩ := t
+      cases sg <;> simp only [ITy.min, ITy.max] at ha hb hcr ⊢ <;> simp at ha hb hcr ⊢ <;> simp only [] at h16 h15 <;> omega
+    rw [arith_ok _ (by simp) _ hin]
+    simp only [ok_bind, hfinal]
+  · have hprom : t.promote = t := by unfold ITy.promote; simp; omega
+    rw [hprom]
+    unfold arith
+    cases hs : t.sg
+    · simp only [Bool.false_eq_true, if_false, ok_bind]
+      rw [conv_of_inR t hw (t.conv _) (by rw [inR_iff]; exact (conv_spec t hw _).1), hfinal]
+    · have hh : t.inR (Int.tdiv (b - a) 2) = true := by
+        rw [inR_iff]
+        obtain ⟨w, sg⟩ := t
+        simp only [] at hs; subst hs
+        simp only [ITy.min, ITy.max] at ha hb ⊢; simp at ha hb ⊢; simp only [] at h2
+        by_cases h : 0 ≤ b - a
+        · have := hb2.1 h; omega
+        · have := hb2.2 (by omega); omega
+      rw [conv_of_inR t hw _ hh] at hfinal ⊢
+      have : a + Int.tdiv (b - a) 2 = Spec.midpoint a b := rfl
+      rw [this] at hfinal ⊢
+      simp only [if_true, hm, ok_bind, hfinal]
+
+/-! ## rotations -/
+
+theorem rot_core (w t r : Nat) (ht : t < 2^w) (hrw : r < w) :
+    ((t <<< r) ||| (t >>> (w - r))) % 2^w = (t * 2^r) % 2^w + t / 2^(w - r) := by
+  have hsplit : 2^w = 2^(w-r) * 2^r := by rw [← Nat.pow_add]; congr 1; omega
+  have hhi : t / 2^(w-r) < 2^r := by
+    apply Nat.div_lt_of_lt_mul; rw [← hsplit]; exact ht
+  rw [Nat.shiftRight_eq_div_pow, ← Nat.shiftLeft_add_eq_or_of_lt hhi, Nat.shiftLeft_eq]
+  have hlo : (t * 2^r) % 2^w = (t % 2^(w-r)) * 2^r := by
+    rw [hsplit, Nat.mul_mod_mul_right]
+  have hlt : t % 2^(w-r) < 2^(w-r) := Nat.mod_lt _ (Nat.pow_pos (by decide))
+  have hbound : (t % 2^(w-r)) * 2^r + t / 2^(w-r) < 2^w := by
+    calc (t % 2^(w-r)) * 2^r + t / 2^(w-r) < (t % 2^(w-r)) * 2^r + 2^r := by omega
+      _ = (t % 2^(w-r) + 1) * 2^r := by rw [Nat.add_mul, Nat.one_mul]
+      _ ≤ 2^(w-r) * 2^r := Nat.mul_le_mul_right _ hlt
+      _ = 2^w := hsplit.symm
+  rw [Nat.add_mod, hlo, Nat.mod_eq_of_lt (a := t / 2^(w-r)) (by omega), Nat.mod_eq_of_lt hbound]
+
+/-- `unsigned(s) % digits` is the mathematical `s mod digits` when `digits` divides `2^32` -/
+theorem rot_count (w : Nat) (hdvd : (w : Int) ∣ 2^32) (s : Int) :
+    (u32.conv s).toNat % w = (s % (w : Int)).toNat := by
+  show (ITy.conv ⟨32, false⟩ s).toNat % w = _
+  rw [convU]
+  have h0 : 0 ≤ s % 2^32 := Int.emod_nonneg _ (by decide)
+  have : ((((s % 2^32).toNat % w : Nat)) : Int) = s % (w : Int) := by
+    rw [Int.natCast_emod, Int.toNat_of_nonneg h0, Int.emod_emod_of_dvd _ hdvd]
+  omega
+
+theorem rotl_eq (w t : Nat) (s : Int) (hw : 0 < w) (hdvd : (w : Int) ∣ 2^32) (ht : t < 2^w) :
+    rotl w t s = .ok (Spec.rotl w t s) := by
+  unfold rotl Spec.rotl
+  simp only [rot_count w hdvd s]
+  have hrlt : (s % (w : Int)).toNat < w := by
+    have := Int.emod_lt_of_pos s (by omega : (0:Int) < w)
+    have := Int.emod_nonneg s (by omega : (w:Int) ≠ 0)
+    omega
+  generalize (s % (w : Int)).toNat = r at *
+  by_cases hr : r = 0
+  · subst hr
+    simp [Nat.mod_eq_of_lt ht, Nat.div_eq_of_lt ht]
+  · simp only [beq_iff_eq, hr, if_false]
+    rw [rot_core w t r ht hrlt]
+
+theorem rotr_eq (w t : Nat) (s : Int) (hw : 0 < w) (hdvd : (w : Int) ∣ 2^32) (ht : t < 2^w) :
+    rotr w t s = .ok (Spec.rotr w t s) := by
+  unfold rotr Spec.rotr
+  simp only [rot_count w hdvd s]
+  have hrlt : (s % (w : Int)).toNat < w := by
+    have := Int.emod_lt_of_pos s (by omega : (0:Int) < w)
+    have := Int.emod_nonneg s (by omega : (w:Int) ≠ 0)
+    omega
+  generalize (s % (w : Int)).toNat = r at *
+  by_cases hr : r = 0
+  · subst hr
+    simp
+  · simp only [beq_iff_eq, hr, if_false]
+    have h := rot_core w t (w - r) ht (by omega)
+    have hwr : w - (w - r) = r := by omega
+    rw [hwr] at h
+    rw [Nat.or_comm, h, Nat.add_comm]
+
+
 end Tetl.C14
